@@ -25,6 +25,9 @@
 #include <cppcms/json.h>
 #include <cppcms/url_dispatcher.h>
 #include <booster/log.h>
+#ifndef _GNU_SOURCE
+#define _GNU_SOURCE
+#endif
 #include <dlfcn.h>
 #include <sys/socket.h>
 #include <sys/un.h>
@@ -216,6 +219,7 @@ struct client {
 	{
 		for (int i = 0; i < 40000; i++) {
 			int out = 0;
+			{ pollfd ph; ph.fd = fd; ph.events = POLLRDHUP; ph.revents = 0; if (poll(&ph, 1, 0) > 0 && (ph.revents & (POLLRDHUP | POLLHUP | POLLERR))) return; }
 			if (tcp && ioctl(fd, SIOCOUTQ, &out) == 0 && out > 0) { usleep(20); continue; }
 			if (srv_fd < 0) { usleep(200); return; }
 			int n = 0;
@@ -320,6 +324,7 @@ int main(int argc, char **argv)
 	cfg["security"]["uploads_path"] = g_dir;
 	cfg["logging"]["level"] = "emergency";
 	cfg["gzip"]["enable"] = true;
+	cfg["localization"]["disable_charset_in_content_type"] = true;
 	if (getenv("C03_GZIP_BUFFER")) cfg["gzip"]["buffer"] = atoi(getenv("C03_GZIP_BUFFER"));
 	if (getenv("C03_OUTBUF")) cfg["service"]["output_buffer_size"] = atoi(getenv("C03_OUTBUF"));
 	if (getenv("C03_ASYNC_OUTBUF")) cfg["service"]["async_output_buffer_size"] = atoi(getenv("C03_ASYNC_OUTBUF"));
